@@ -2,6 +2,7 @@ package c04
 
 import (
 	"fmt"
+	"math/big"
 	"sync"
 	"sync/atomic"
 	"testing"
@@ -12,11 +13,13 @@ import (
 	bcreactor "github.com/kardiachain/go-kardia/blockchain"
 	"github.com/kardiachain/go-kardia/configs"
 	"github.com/kardiachain/go-kardia/consensus"
+	"github.com/kardiachain/go-kardia/lib/common"
 	"github.com/kardiachain/go-kardia/lib/crypto"
 	"github.com/kardiachain/go-kardia/lib/log"
 	"github.com/kardiachain/go-kardia/lib/p2p"
 	"github.com/kardiachain/go-kardia/lib/p2p/mock"
 	"github.com/kardiachain/go-kardia/mainchain/blockchain"
+	"github.com/kardiachain/go-kardia/types"
 
 	"verifharness/internal/ev"
 	"verifharness/internal/netsim"
@@ -281,6 +284,20 @@ func TestRealReactors(t *testing.T) {
 			target += joinAt // it has to catch up and then keep up for a few heights
 		}
 
+		// optionally a few signed transfers sit in one node's pool, so that some blocks carry transactions
+		withTxs := 0
+		if rapid.Bool().Draw(t, "txs") {
+			at := rapid.IntRange(0, n-1).Draw(t, "txnode")
+			if rn := nodeAt(at); rn != nil {
+				for k := uint64(0); k < uint64(rapid.IntRange(1, 5).Draw(t, "ntx")); k++ {
+					tx, err := types.SignTx(types.HomesteadSigner{}, types.NewTransaction(k, common.BytesToAddress([]byte{0xc0, 0x04}), big.NewInt(1000), 40000, big.NewInt(1), nil), netsim.Key(100))
+					if err == nil && rn.nd.TxPool.AddLocal(tx) == nil {
+						withTxs++
+					}
+				}
+				text += fmt.Sprintf(" %d transfers in node %d's pool;", withTxs, at)
+			}
+		}
 		// optionally one node is stopped and started again on its own database and log while the others go on
 		restartNode, restartAfter, restarted := -1, time.Duration(0), false
 		if rapid.Bool().Draw(t, "restart") {
@@ -448,6 +465,16 @@ func TestRealReactors(t *testing.T) {
 		}
 		if joined {
 			ev.Class("real-reactors:late-joiner-synced-and-switched-to-consensus")
+		}
+		if withTxs > 0 {
+			ev.Class("real-reactors:blocks-with-transactions")
+		}
+		// same application state everywhere at the last common height
+		for i := 1; i < n; i++ {
+			a, b := nodeAt(0).nd.BOps.LoadBlock(target), nodeAt(i).nd.BOps.LoadBlock(target)
+			if a != nil && b != nil && a.AppHash() != b.AppHash() {
+				ev.Violation(t, "realnet.apphash", text, "nodes 0 and %d hold different application hashes in block %d", i, target)
+			}
 		}
 	})
 }
